@@ -7,8 +7,14 @@ import sys
 
 OUT = "/tmp/out"
 DST = os.path.join(os.path.dirname(os.path.dirname(os.path.abspath(__file__))), "seeded")
+# neutralised by a genuine-defect repair (the demo passes with the patch applied to the repaired tree): not kept
+DROPPED = {("C02", "A"), ("C19", "A")}
+# rebased onto the repaired tree: the rebased patch is the one to keep
+REBASED = {("C11", "B"): "patch_rebased.diff"}
 for pid in sorted(os.listdir(OUT)):
     for x in sorted(os.listdir(os.path.join(OUT, pid))):
+        if (pid, x) in DROPPED:
+            continue
         d = os.path.join(OUT, pid, x)
         cj = os.path.join(d, "confirm.json")
         if not os.path.isdir(d) or not os.path.exists(cj):
@@ -21,6 +27,8 @@ for pid in sorted(os.listdir(OUT)):
         for f in ("patch.diff", "demo.py", "notes.md"):
             if os.path.exists(os.path.join(d, f)):
                 shutil.copy(os.path.join(d, f), os.path.join(dst, f))
+        if (pid, x) in REBASED and os.path.exists(os.path.join(d, REBASED[(pid, x)])):
+            shutil.copy(os.path.join(d, REBASED[(pid, x)]), os.path.join(dst, "patch.diff"))
         notes = open(os.path.join(d, "notes.md")).read() if os.path.exists(os.path.join(d, "notes.md")) else ""
         meta = {
             "property": pid,
